@@ -141,6 +141,20 @@ def run_tlc(module, cfg, metadir, env=None, workers=1, xmx="3g", timeout=1800, e
     return p.returncode, out, tlc_stats(out)
 
 
+def run_apalache(module, args, outdir, timeout=900):
+    """apalache-mc check <args> spec/apalache/<module>.tla ; returns (outcome, output): outcome is "NoError" | "Error" | "other" """
+    shutil.rmtree(outdir, ignore_errors=True)
+    cmd = ["apalache-mc", "check"] + list(args) + ["--out-dir=" + outdir, os.path.join(SPEC, "apalache", module + ".tla")]
+    try:
+        p = subprocess.run(cmd, cwd=os.path.join(SPEC, "apalache"), stdout=subprocess.PIPE, stderr=subprocess.STDOUT, timeout=timeout)
+    except subprocess.TimeoutExpired:
+        raise ToolError("Apalache timeout on %s %s after %ds" % (module, " ".join(args), timeout))
+    out = p.stdout.decode(errors="replace")
+    shutil.rmtree(outdir, ignore_errors=True)
+    outcome = "NoError" if "The outcome is: NoError" in out else ("Error" if "The outcome is: Error" in out else "other")
+    return outcome, out
+
+
 def tlc_stats(out):
     st = {"states": 0, "distinct": 0, "depth": 0}
     for line in out.splitlines():
